@@ -589,7 +589,7 @@ pub fn run_encoder(ch: &mut Chooser, ctx: &mut Ctx) {
         if ctx.stop {
             return;
         }
-        let (k, r, b) = st.cfg;
+        let (k, _r, b) = st.cfg;
         let fill = st.shards.len();
         let fill_class = if fill == 0 { 0 } else if fill == k { 3 } else if fill + 1 == k { 2 } else { 1 };
         let op = ch.weighted("enc.op", &[30, 6, 22, 8, 6, 5, 4]);
@@ -1286,7 +1286,7 @@ pub fn run_decoder(ch: &mut Chooser, ctx: &mut Ctx) {
                 let mut adm = Vec::new();
                 if index >= count {
                     adm.push(if is_rec { Error::InvalidRecoveryShardIndex { recovery_count: r, index } } else { Error::InvalidOriginalShardIndex { original_count: k, index } });
-                } else if (if is_rec { st.given_r[index] } else { st.given_o[index] }) {
+                } else if if is_rec { st.given_r[index] } else { st.given_o[index] } {
                     adm.push(if is_rec { Error::DuplicateRecoveryShardIndex { index } } else { Error::DuplicateOriginalShardIndex { index } });
                 }
                 if len != b {
